@@ -38,6 +38,13 @@ var verifCount int
 // the process there (exit status 137); LAYERCAKE_VERIF_LOG=<file> appends one line
 // per operation.
 func verifPoint(kind, arg string) error {
+	if kind == "proc-scan" {
+		// a synchronisation point, not a mutating operation: never counted, never failed
+		if VerifHook != nil {
+			VerifHook(kind, arg)
+		}
+		return nil
+	}
 	verifCount++
 	if name := os.Getenv("LAYERCAKE_VERIF_LOG"); len(name) > 0 {
 		if fh, err := os.OpenFile(name, os.O_WRONLY|os.O_APPEND|os.O_CREATE, 0644); err == nil {
